@@ -274,7 +274,19 @@ impl DBInner {
 
     pub(crate) fn resize(&self, file: &File, new_size: u64) -> Result<Arc<Mmap>> {
         file.allocate(new_size)?;
+        #[cfg(feature = "verif-hooks")]
+        {
+            use crate::verif_hooks as vh;
+            vh::yield_point("resize:allocated");
+            vh::before_lock("mmap_write", &|| vh::can_write(&self.mmap_lock));
+        }
         let _lock = self.mmap_lock.write()?;
+        #[cfg(feature = "verif-hooks")]
+        {
+            use crate::verif_hooks as vh;
+            vh::yield_point("resize:have_mmap_lock");
+            vh::before_lock("data", &|| vh::can_lock(&self.data));
+        }
         let mut data = self.data.lock()?;
         let mmap = mmap(file, self.flags.mmap_populate)?;
         *data = Arc::new(mmap);
@@ -282,6 +294,8 @@ impl DBInner {
     }
 
     pub(crate) fn meta(&self) -> Result<Meta> {
+        #[cfg(feature = "verif-hooks")]
+        crate::verif_hooks::before_lock("data", &|| crate::verif_hooks::can_lock(&self.data));
         let data = self.data.lock()?;
 
         macro_rules! check_meta {
